@@ -125,7 +125,7 @@ func runConc(t *testing.T, out *vh.Out, n *node, s scenario, rep int) {
 		go n.ps.VerifEval(func() { close(in); <-gate })
 		select {
 		case <-in:
-		case <-time.After(5 * time.Second):
+		case <-time.After(20 * time.Second):
 			// the event loop does not take requests any more (all calls have returned: it is stuck on its own)
 			out.Emit(M{"e": "loopdead", "scn": scn, "at": "park"})
 			close(gate)
@@ -228,7 +228,7 @@ func runConc(t *testing.T, out *vh.Out, n *node, s scenario, rep int) {
 	var st M
 	select {
 	case st = <-stCh:
-	case <-time.After(5 * time.Second):
+	case <-time.After(20 * time.Second):
 		out.Emit(M{"e": "loopdead", "scn": scn, "at": "final"})
 		abandoned++
 		return
@@ -317,7 +317,7 @@ func TestX09Conc(t *testing.T) {
 			runConc(t, out, n, s, rep)
 			n.stop()
 		}
-		if abandoned >= 8 {
+		if abandoned >= 4 {
 			out.Emit(M{"e": "giveup", "at": i, "abandoned": abandoned})
 			break
 		}
